@@ -725,6 +725,18 @@ func runWorldModeX(cfg *runCfg, name string, kf1 bool, live bool) error {
 			w = directedWorld(r, rep, cfg.seed*100000+23, 3)
 			w.cachedBadCommitScript()
 			rep.count("world:directed-cached-bad-commit-script")
+		} else if !kf1 && i == 24 {
+			w = directedWorld(r, rep, cfg.seed*100000+24, 1)
+			w.rehashedBlockScript()
+			rep.count("world:directed-rehashed-block-script")
+		} else if !kf1 && i == 25 {
+			w = directedWorld(r, rep, cfg.seed*100000+25, 3)
+			w.replayedSignatureScript()
+			rep.count("world:directed-replayed-signature-script")
+		} else if !kf1 && i == 26 {
+			w = directedWorld(r, rep, cfg.seed*100000+26)
+			w.reproposalDuringPendingSyncScript()
+			rep.count("world:directed-reproposal-during-pending-sync-script")
 		} else {
 			w.run()
 		}
@@ -796,6 +808,7 @@ func newWorld(r *rand.Rand, rep *Report, seed int64) *world {
 	w := &world{r: r, rep: rep, kr: newKeyring(seed), byz: map[uint64]bool{}, byId: map[uint64]*simNode{}, signed: map[string]bool{},
 		proposedBy: map[uint64]uint64{}, validatedBy: map[uint64][]uint64{}, failCommit: map[uint64][]uint64{}, excl: map[uint64][]uint64{}, chain: map[uint64]*aBlock{}, held: map[uint64]bool{}}
 	w.codec = newCodec(w.kr)
+	w.codec.replaySigs = seed%2 == 0 // in every other world an invalid signature is a genuine one replayed over other bytes
 	w.ord = rand.New(rand.NewSource(seed ^ 0x5bd1e995))
 	w.n = 4 + r.Intn(4)
 	w.weights = make([]uint64, w.n)
